@@ -302,6 +302,17 @@ class PVLEncoder(object):
                 )
         return self.newline.join(lines)
 
+    def _check_name(self, key: str):
+        """Raises ValueError if *key* could not be read back as a
+        Parameter Name or Block Name (it is empty, a reserved word,
+        or contains white space or reserved characters)."""
+        tok = Token(str(key), grammar=self.grammar, decoder=self.decoder)
+        if not tok.is_parameter_name():
+            raise ValueError(
+                f'The key "{key}" cannot be written as a Parameter Name '
+                "or Block Name."
+            )
+
     def encode_aggregation_block(
         self, key: str, value: abc.Mapping, level: int = 0
     ) -> str:
@@ -312,6 +323,8 @@ class PVLEncoder(object):
         of *level*.
         """
         lines = list()
+
+        self._check_name(key)
 
         if isinstance(value, self.grpcls):
             agg_keywords = self.grammar.group_pref_keywords
@@ -351,6 +364,8 @@ class PVLEncoder(object):
         """
         if key_len is None:
             key_len = len(key)
+
+        self._check_name(key)
 
         s = ""
         s += "{} = ".format(key.ljust(key_len))
@@ -731,6 +746,8 @@ class ODLEncoder(PVLEncoder):
 
         if key_len is None:
             key_len = len(key)
+
+        self._check_name(key)
 
         if len(key) > 30:
             raise ValueError(
